@@ -47,10 +47,22 @@ func daemonMain(self string) {
 		time.Sleep(time.Duration(ms) * time.Millisecond)
 	}
 	dir := os.Getenv("C20_DIR")
+	token := os.Getenv("C20_TOKEN")
+	switch os.Getenv("C20_CLEANS_ENV") {
+	case "1":
+		// a daemon that will start helpers from the same binary must not pass the daemon variables on to them
+		for _, kv := range os.Environ() {
+			if k, _, _ := strings.Cut(kv, "="); strings.HasPrefix(k, "ENV_DAEMON_") {
+				os.Unsetenv(k)
+			}
+		}
+	case "2":
+		os.Clearenv() // a daemon that wants a minimal, known environment
+	}
 	marker := filepath.Join(dir, fmt.Sprintf("marker.%d", os.Getpid()))
 	// everything the daemon does before Done(): write the marker (atomically)
 	tmp := marker + ".tmp"
-	os.WriteFile(tmp, []byte(fmt.Sprintf("%d %s %s", os.Getpid(), os.Getenv("C20_TOKEN"), self)), 0o644)
+	os.WriteFile(tmp, []byte(fmt.Sprintf("%d %s %s", os.Getpid(), token, self)), 0o644)
 	os.Rename(tmp, marker)
 	daemon.Done()
 	// life after Done(): the launcher is going away now; an ordinary daemon logs something and carries on
@@ -101,6 +113,7 @@ type kase struct {
 	childCaller      bool
 	afterFailed      bool // the same caller process first launches a daemon that dies before Done()
 	distinctNames    bool // concurrent launches ask for handlers registered under different names
+	cleansEnv        int  // the handler changes its own environment before Done(): 1 unsets ENV_DAEMON_*, 2 os.Clearenv()
 }
 
 func (k kase) name(i int) string {
@@ -121,6 +134,9 @@ func (k kase) String() string {
 	}
 	if k.distinctNames {
 		s += " distinctHandlerNames"
+	}
+	if k.cleansEnv > 0 {
+		s += []string{"", " handlerUnsetsDaemonVariables", " handlerClearsItsEnvironment"}[k.cleansEnv]
 	}
 	return s
 }
@@ -168,7 +184,7 @@ func runCase(k kase) string {
 	}
 	defer os.RemoveAll(dir)
 	token := fmt.Sprintf("tok-%d-%d", k.delayMs, k.pauseMs)
-	env := map[string]string{"C20_DIR": dir, "C20_TOKEN": token, "C20_DELAY_MS": strconv.Itoa(k.delayMs), "VERIF_DAEMON_LAUNCH_PAUSE_MS": strconv.Itoa(k.pauseMs)}
+	env := map[string]string{"C20_DIR": dir, "C20_TOKEN": token, "C20_DELAY_MS": strconv.Itoa(k.delayMs), "VERIF_DAEMON_LAUNCH_PAUSE_MS": strconv.Itoa(k.pauseMs), "C20_CLEANS_ENV": strconv.Itoa(k.cleansEnv)}
 	type result struct {
 		pid       int
 		err       string
@@ -424,7 +440,7 @@ func TestGrid(t *testing.T) {
 				if !rt.Thorough() && child && d == 150 && p == 150 {
 					continue // keep the quick tier short; covered by the thorough tier
 				}
-				k := kase{delayMs: d, pauseMs: p, concurrent: 1, childCaller: child, afterFailed: (d+p)%80 == 45}
+				k := kase{delayMs: d, pauseMs: p, concurrent: 1, childCaller: child, afterFailed: (d+p)%80 == 45, cleansEnv: idx % 3}
 				if msg := runCase(k); msg != "" {
 					if strings.HasPrefix(msg, "harness:") {
 						rt.Inconclusivef(t, "%s: %s", k, msg)
@@ -471,6 +487,7 @@ func TestGenerated(t *testing.T) {
 			afterFailed: rapid.IntRange(0, 3).Draw(t, "afterFailedLaunch") == 0,
 		}
 		k.distinctNames = k.concurrent >= 2 && rapid.IntRange(0, 2).Draw(t, "distinctNames") > 0
+		k.cleansEnv = rapid.SampledFrom([]int{0, 0, 0, 1, 2}).Draw(t, "handlerCleansEnv")
 		msg := runCase(k)
 		if strings.HasPrefix(msg, "harness:") {
 			ev.Inconclusive(1)
@@ -487,6 +504,9 @@ func TestGenerated(t *testing.T) {
 		}
 		if k.distinctNames {
 			ev.Label("concurrent_launches_of_different_handlers")
+		}
+		if k.cleansEnv > 0 {
+			ev.Label("handler_changes_its_own_environment_before_Done")
 		}
 		ev.Case(k.nontrivial(), ev.Hash(k.String()), k.String)
 	})
